@@ -40,6 +40,8 @@ type liveChecker struct {
 	stack map[*types.Func]bool
 	// fields: session-collection fields judged by fieldHoldsOnlyOpen ("" = only ever holds sessions seen open)
 	fields map[*types.Var]string
+	// fed: callbackFedOpen(g, ai, pi) memo
+	fed map[[3]interface{}]bool
 }
 
 // bodyFacts analyses one function (and its closures): for every session variable / collection, whether some
@@ -62,6 +64,35 @@ func (lc *liveChecker) dirtyTargets(f *core.FuncInfo) map[types.Object]string {
 		return nil
 	}
 	liveTag := func(o types.Object) string { return "live:" + o.Name() + "@" + lc.w.Pos(o.Pos()) }
+	// parameters of a callback literal that a helper of the package only ever calls with a session it has just
+	// tested open (an iterator over the open sessions): known open inside the literal
+	preLive := map[types.Object]bool{}
+	ast.Inspect(f.Decl.Body, func(n ast.Node) bool {
+		c, ok := n.(*ast.CallExpr)
+		if !ok {
+			return true
+		}
+		g := lc.w.Info(core.Callee(info, c))
+		if g == nil || g.Pkg != f.Pkg || g.Decl.Body == nil {
+			return true
+		}
+		for ai, a := range c.Args {
+			lit, ok := ast.Unparen(a).(*ast.FuncLit)
+			if !ok || lit.Type.Params == nil {
+				continue
+			}
+			pi := 0
+			for _, fld := range lit.Type.Params.List {
+				for _, nm := range fld.Names {
+					if o := info.Defs[nm]; o != nil && isSessionType(o.Type()) && lc.callbackFedOpen(g, ai, pi) {
+						preLive[o] = true
+					}
+					pi++
+				}
+			}
+		}
+		return true
+	})
 	visit := func(pkg *packages.Package, n ast.Node, st *flow.State) {
 		as, ok := n.(*ast.AssignStmt)
 		if !ok {
@@ -106,6 +137,9 @@ func (lc *liveChecker) dirtyTargets(f *core.FuncInfo) map[types.Object]string {
 				}
 				so := core.ObjOf(info, s)
 				if so == nil || !isSessionType(so.Type()) {
+					continue
+				}
+				if preLive[so] {
 					continue
 				}
 				if !st.Has(liveTag(so)) && dirty[so] != "" || !st.Has(liveTag(so)) {
@@ -471,6 +505,108 @@ func (lc *liveChecker) fieldHoldsOnlyOpen1(fv *types.Var) string {
 		return "no write to the field was found"
 	}
 	return ""
+}
+
+// callbackFedOpen: g calls its func-typed parameter number ai only with a session (argument pi) that was tested
+// !IsClosed() on the path to the call, and uses that parameter for nothing but calling it.
+func (lc *liveChecker) callbackFedOpen(g *core.FuncInfo, ai, pi int) bool {
+	key := [3]interface{}{g, ai, pi}
+	if lc.fed == nil {
+		lc.fed = map[[3]interface{}]bool{}
+	}
+	if v, ok := lc.fed[key]; ok {
+		return v
+	}
+	lc.fed[key] = false
+	ps := paramObjs(g)
+	if ai >= len(ps) {
+		return false
+	}
+	cb := ps[ai]
+	if _, isFn := cb.Type().Underlying().(*types.Signature); !isFn {
+		return false
+	}
+	info := g.Pkg.TypesInfo
+	w := lc.w
+	liveTag := func(o types.Object) string { return "live:" + o.Name() + "@" + w.Pos(o.Pos()) }
+	// every mention of the parameter is a call of it
+	called := map[*ast.Ident]bool{}
+	var calls []*ast.CallExpr
+	ast.Inspect(g.Decl.Body, func(n ast.Node) bool {
+		if c, ok := n.(*ast.CallExpr); ok {
+			if id, ok := ast.Unparen(c.Fun).(*ast.Ident); ok && info.Uses[id] == cb {
+				called[id] = true
+				calls = append(calls, c)
+			}
+		}
+		return true
+	})
+	escapes := false
+	ast.Inspect(g.Decl.Body, func(n ast.Node) bool {
+		if id, ok := n.(*ast.Ident); ok && info.Uses[id] == cb && !called[id] {
+			escapes = true
+		}
+		return true
+	})
+	if escapes || len(calls) == 0 {
+		return false
+	}
+	sp := &flow.Spec{W: w, Depth: 0, Inline: -1,
+		CondTags: func(pkg *packages.Package, cond ast.Expr, branch bool) []flow.Tag {
+			c, ok := ast.Unparen(cond).(*ast.CallExpr)
+			if !ok {
+				return nil
+			}
+			sel, ok := ast.Unparen(c.Fun).(*ast.SelectorExpr)
+			if !ok || sel.Sel.Name != "IsClosed" {
+				return nil
+			}
+			if o := core.ObjOf(pkg.TypesInfo, sel.X); o != nil && !branch {
+				return []flow.Tag{liveTag(o)}
+			}
+			return nil
+		},
+		Classify: func(pkg *packages.Package, call *ast.CallExpr, callee *types.Func) []flow.Tag {
+			for _, c := range calls {
+				if c == call {
+					return []flow.Tag{"cb"}
+				}
+			}
+			return nil
+		}}
+	var points []*flow.CallPoint
+	points = append(points, sp.Analyze(g).Calls...)
+	ast.Inspect(g.Decl.Body, func(n ast.Node) bool {
+		if lit, ok := n.(*ast.FuncLit); ok {
+			points = append(points, sp.AnalyzeLit(g.Pkg, lit).Calls...)
+		}
+		return true
+	})
+	seen := map[*ast.CallExpr]bool{}
+	for _, cp := range points {
+		if !inSet("cb", cp.Tags...) {
+			continue
+		}
+		if pi >= len(cp.Call.Args) {
+			return false
+		}
+		id, ok := ast.Unparen(cp.Call.Args[pi]).(*ast.Ident)
+		if !ok {
+			return false
+		}
+		o := info.Uses[id]
+		if o == nil || !cp.Before.Has(liveTag(o)) {
+			return false
+		}
+		seen[cp.Call] = true
+	}
+	for _, c := range calls {
+		if !seen[c] {
+			return false
+		}
+	}
+	lc.fed[key] = true
+	return true
 }
 
 // verify returns "" when every return of f yields nil or a session seen open in this invocation.
